@@ -74,6 +74,10 @@ CLAIMED = {
             "Theorems C13_codec/C13_reassemble/C13_read_prefix/C13_read_all/C13_filter/C13_write/C13_write_roundtrip/C13_too_long hold for every well-formed frame, every chunking, every buffer-size sequence and every list of writes. PARTIAL: the goroutine pipeline between the TNC reader and Conn.Read (demux queues, outstanding-frame pacing, timeouts) is not modelled (C13_pipeline_statement is a Prop); it is exercised per run by 60 (400) register/dial-or-accept/read/write/flush/close scenarios against a scripted TNC whose link delivers at most 1..64 bytes per read, judged by oracles written from the property text.",
             "Four fix: commits (io.ReadFull for the data field, data-length limit, port number in frames, Read keeping the unread remainder) precede this check; two known findings (non-blocking Enqueue drops frames in a burst; Write waits for a non-zero outstanding count) are recorded. Schedules are sampled, not enumerated: the pipeline part is partial with respect to the Go scheduler.",
             "DESIGN.md section 6 C13"),
+    "C14": ("Coq proof of the ARDOP host-interface contract in serial (prefix + CRC-16) and TCP mode for all frames, streams, payload lengths up to the 16-bit limit, buffer-size sequences and CRCFAULT patterns, with the parser's case lists and state map regenerated from source + correspondence of CRC, frame writer/reader, parser, wire frames and control dispatch, and end-to-end scenarios against a scripted TNC",
+            "Theorems C14_data_frame/C14_cmd_frame/C14_stream/C14_read_prefix/C14_read_all/C14_write/C14_retransmit/C14_retransmit_same/C14_ptt_order/C14_arq_order/C14_parse_total/C14_crc_16bit hold for every input of the model. PARTIAL: the goroutine structure (broadcaster, Flush lock, Close time-outs) is not modelled (C14_flush_statement is a Prop); it is exercised per run by 40 (300) open/dial-or-accept/read/write/flush/close scenarios in serial mode over a link delivering 1..64 bytes per read and in TCP mode on loopback, judged by oracles written from the property text with an independent CRC implementation.",
+            "Four fix: commits (16-bit length wrap and short data frames, CRC read with one Read, parameterless control lines, Read with a small buffer) precede this check. Unicode case mapping of non-ASCII control lines is outside the parser model (correspondence on ASCII lines; arbitrary bytes are fed to the real code for crash-freedom only). Schedules are sampled.",
+            "DESIGN.md section 6 C14"),
 }
 
 NOT_YET = {}
